@@ -145,6 +145,11 @@ func (r *Reader) decodeScanLine() {
 		r.decodeG3ScanLine2D()
 	}
 
+	if r.EncodedByteAlign {
+		// the encoder pads every row with zero bits up to a byte boundary
+		r.consumeBits(r.validBits % 8)
+	}
+
 	copy(r.refLine, r.line)
 }
 
